@@ -139,6 +139,8 @@ type (
 		resetStreamsDuringTaggingJob   bitmask.LongBitmask
 		addedStreamsDuringTaggingJob   bitmask.LongBitmask
 
+		updatedStreamsDuringConverterJob bitmask.LongBitmask
+
 		streamsToConvert         map[string]*bitmask.LongBitmask
 		pcapProcessorWebhookUrls []string
 		pcapOverIPEndpoints      []*pcapOverIPEndpoint
@@ -1590,6 +1592,13 @@ func (mgr *Manager) convertStreamJob(allConverters []*converters.CachedConverter
 	mgr.jobs <- func() {
 		mgr.converterJobRunning = false
 
+		// streams that were updated while we were running were converted from the old index snapshot
+		if !mgr.updatedStreamsDuringConverterJob.IsZero() {
+			updatedStreams := mgr.updatedStreamsDuringConverterJob
+			mgr.updatedStreamsDuringConverterJob = bitmask.LongBitmask{}
+			mgr.invalidateConverters(&updatedStreams)
+		}
+
 		for i, converter := range allConverters {
 			// The converter was removed while we were running.
 			// Discard the result.
@@ -1623,6 +1632,9 @@ func (mgr *Manager) convertStreamJob(allConverters []*converters.CachedConverter
 }
 
 func (mgr *Manager) invalidateConverters(updatedStreams *bitmask.LongBitmask) {
+	if mgr.converterJobRunning {
+		mgr.updatedStreamsDuringConverterJob.Or(*updatedStreams)
+	}
 	for _, converter := range mgr.converters {
 		invalidatedStreams := converter.InvalidateChangedStreams(updatedStreams)
 		mgr.streamsToConvert[converter.Name()].Or(invalidatedStreams)
